@@ -674,10 +674,21 @@ package hclwrite
 // verif:ghostvar writtenFaithful bool
 // verif:pred asLexed(t *Token) = t != nil && org(t.Bytes) == t.lexOrg && len(t.Bytes) == t.lexLen && t.Type == t.lexType
 // (definition of the ghost record: assumed)
+// (round 8: verified for what it hands to the scanner - exactly the caller's bytes, from the start of
+// a file; the ghost record's definition and the frame stay assumed)
 // verif:func lexConfig
-//@ trusted
-//@ assigns nothing
-//@ ensures forall j int :: { ret[j] } 0 <= j && j < len(ret) ==> fresh(ret[j]) && asLexed(ret[j])
+//@ nosafety
+//@ assumesassigns nothing
+//@ assumes forall j int :: { ret[j] } 0 <= j && j < len(ret) ==> fresh(ret[j]) && asLexed(ret[j])
+//@ callsite LexConfig whole: arg0 === src && arg2.Byte == 0 && arg2.Line == 1 && arg2.Column == 1
+// The loader parses and lexes the same bytes from the same start position: the ranges of the syntax
+// tree and the ranges of the tokens it is matched against refer to one coordinate system.
+// verif:func parse
+//@ nosafety
+//@ assumepre
+//@ props C10
+//@ callsite ParseConfig same: arg0 === src && arg1 == filename && arg2 == start
+//@ callsite LexConfig same: arg0 === src && arg1 == filename && arg2 == start
 // The conversion from scanner tokens to writer tokens behind lexConfig copies every token: same
 // type, a private copy of the bytes of equal length (that the content is equal is not proved: the
 // engine does not model copy()'s content), and the gap to the previous token
